@@ -376,10 +376,14 @@ class LP:
             if self.at(c):
                 self.eat(c)
                 return ("name", v)
-        m = re.compile(r"\d+\.?\d*").match(s, self.i)
+        m = re.compile(r"\d+\.?\d*(?:\s+\d+\.?\d*)*").match(s, self.i)
         if m:
             self.i = m.end()
-            return ("num", m.group(0))
+            # TeX ignores blanks in math mode: "2 3" is typeset, and read, as the numeral 23 - not as a product
+            digits = re.sub(r"\s+", "", m.group(0))
+            if digits.count(".") > 1:
+                raise ParseError(f"adjacent numerals run together into {digits!r}")
+            return ("num", digits)
         if self.at("{"):
             # indexed: {m}_{i}
             g = self.group()
